@@ -1,14 +1,14 @@
 #!/usr/bin/env python3
 """Independent confirmation of candidate seeded changes (and of the repository's own suite at HEAD).
 
-   usage: tools/confirm_seeded.py baseline                 run the pinned suite on a scratch worktree of /repo HEAD
-          tools/confirm_seeded.py <candidate dir> ...       for each dir with patch.diff + demo.rs:
-              apply patch.diff to the scratch worktree, run the pinned suite (every test of BASELINE.stable_pass
-              must still pass), put the demo where its header says, run it (must FAIL), revert the patch,
-              run the demo again (must PASS); write <dir>/confirm.json
-
-   Everything happens in /tmp/confirm (scratch worktree) with CARGO_TARGET_DIR=/tmp/confirm-target; /repo itself is
-   never touched."""
+   usage: tools/confirm_seeded.py baseline            run the pinned suite on a scratch worktree of /repo HEAD
+          tools/confirm_seeded.py demos <dir> ...     phase A: all demos placed on unchanged HEAD must PASS;
+                                                      phase B: each patch applied ALONE -> its demo must FAIL
+          tools/confirm_seeded.py suite <dir> ...     phase C: all patches applied together (conflicting ones are
+                                                      applied in a second round) -> every test of BASELINE.stable_pass
+                                                      must still pass
+   Results are merged into <dir>/confirm.json.  Everything happens in /tmp/confirm (scratch worktree of /repo HEAD) with
+   CARGO_TARGET_DIR=/tmp/confirm-target; /repo itself is never touched."""
 import json
 import os
 import re
@@ -21,9 +21,10 @@ TARGET = "/tmp/confirm-target"
 ENV = dict(os.environ, CARGO_NET_OFFLINE="true", CARGO_TARGET_DIR=TARGET)
 BASE = json.load(open("/root/.vp/BASELINE.json"))
 STABLE = set(BASE["stable_pass"])
+FEATURES = "partial-eval,tpe,entity-manifest,protobufs,permissive-validate,partial-validate"
 
 
-def sh(cmd, cwd=WT, timeout=7200):
+def sh(cmd, cwd=WT, timeout=10800):
     p = subprocess.run(cmd, shell=True, cwd=cwd, env=ENV, stdout=subprocess.PIPE, stderr=subprocess.STDOUT, text=True,
                        timeout=timeout)
     return p.returncode, p.stdout
@@ -57,51 +58,88 @@ def suite():
             "tail": out[-1500:] if not os.path.exists(junit) else ""}
 
 
-def demo_place(demo_path):
-    txt = open(demo_path).read()
+def demo_info(d):
+    txt = open(os.path.join(d, "demo.rs")).read()
     m = re.search(r"Place this file at:\s*(\S+)", txt)
-    c = re.search(r"(cargo test[^\n]*)", txt)
-    return (m.group(1) if m else None), (c.group(1).strip() if c else None)
+    place = m.group(1) if m else None
+    name = os.path.splitext(os.path.basename(place))[0] if place else None
+    pkg = place.split("/")[0] if place else None
+    return place, pkg, name
+
+
+def demo_cmd(pkg, name):
+    feat = (" --features " + FEATURES) if pkg == "cedar-policy" else ""
+    return "cargo test --offline -p %s%s --test %s 2>&1 | tail -n 30" % (pkg, feat, name)
+
+
+def update(d, **kw):
+    p = os.path.join(d, "confirm.json")
+    r = json.load(open(p)) if os.path.exists(p) else {}
+    r.update(kw)
+    r["confirmed"] = bool(r.get("applies") and r.get("demo_without_patch_passes") and r.get("demo_with_patch_fails")
+                          and r.get("suite_with_patch_stable_missing") == 0)
+    json.dump(r, open(p, "w"), indent=1)
+    return r
+
+
+def place_demo(d):
+    place, pkg, name = demo_info(d)
+    os.makedirs(os.path.dirname(os.path.join(WT, place)), exist_ok=True)
+    sh("cp %s %s" % (os.path.join(d, "demo.rs"), os.path.join(WT, place)))
+    return pkg, name
 
 
 def main():
-    args = sys.argv[1:]
+    mode, dirs = sys.argv[1], [d.rstrip("/") for d in sys.argv[2:]]
     head = ensure_wt()
-    if args and args[0] == "baseline":
+    if mode == "baseline":
         r = suite()
         r["head"] = head
         json.dump(r, open("/tmp/confirm-baseline.json", "w"), indent=1)
         print(json.dumps({k: r[k] for k in ("head", "passed", "failed", "n_stable_missing", "stable_missing")}, indent=1))
         return
-    for d in args:
-        d = d.rstrip("/")
-        res = {"head": head}
+    if mode == "demos":
+        for d in dirs:                       # phase A: unchanged HEAD
+            pkg, name = place_demo(d)
+            rc, o = sh(demo_cmd(pkg, name))
+            ok = "test result: ok" in o and "FAILED" not in o
+            update(d, head=head, demo_without_patch_passes=ok, demo_without_patch_tail=o[-500:])
+            print(d, "HEAD demo", "passes" if ok else "DOES NOT PASS", flush=True)
+        for d in dirs:                       # phase B: each patch alone
+            ensure_wt()
+            rc, out = sh("git apply %s" % os.path.join(d, "patch.diff"))
+            if rc != 0:
+                update(d, applies=False, apply_output=out[-600:])
+                print(d, "PATCH DOES NOT APPLY", flush=True)
+                continue
+            pkg, name = place_demo(d)
+            rc, o = sh(demo_cmd(pkg, name))
+            fails = ("test result: FAILED" in o) or ("panicked" in o and "test result: ok" not in o)
+            compiled = "error: could not compile" not in o
+            update(d, applies=True, demo_with_patch_fails=bool(fails and compiled), demo_with_patch_tail=o[-900:])
+            print(d, "patched demo", "fails (as required)" if fails and compiled else "DOES NOT FAIL / does not compile", flush=True)
         ensure_wt()
-        rc, out = sh("git apply %s" % os.path.join(d, "patch.diff"))
-        res["applies"] = rc == 0
-        if rc != 0:
-            res["apply_output"] = out[-800:]
-        else:
-            res["suite_with_patch"] = suite()
-            place, cmd = demo_place(os.path.join(d, "demo.rs"))
-            res["demo_place"], res["demo_cmd"] = place, cmd
-            if place and cmd:
-                os.makedirs(os.path.dirname(os.path.join(WT, place)), exist_ok=True)
-                sh("cp %s %s" % (os.path.join(d, "demo.rs"), os.path.join(WT, place)))
-                rc1, o1 = sh(cmd + " 2>&1 | tail -n 25")
-                res["demo_with_patch_fails"] = ("test result: FAILED" in o1) or ("panicked" in o1 and "test result: ok" not in o1)
-                res["demo_with_patch_tail"] = o1[-1200:]
-                sh("git apply -R %s" % os.path.join(d, "patch.diff"))
-                rc2, o2 = sh(cmd + " 2>&1 | tail -n 12")
-                res["demo_without_patch_passes"] = "test result: ok" in o2 and "FAILED" not in o2
-                res["demo_without_patch_tail"] = o2[-600:]
-        res["confirmed"] = bool(res.get("applies") and res.get("suite_with_patch", {}).get("n_stable_missing", 1) == 0
-                                and res.get("demo_with_patch_fails") and res.get("demo_without_patch_passes"))
-        json.dump(res, open(os.path.join(d, "confirm.json"), "w"), indent=1)
-        print(d, "CONFIRMED" if res["confirmed"] else "NOT CONFIRMED",
-              {k: res.get(k) for k in ("applies", "demo_with_patch_fails", "demo_without_patch_passes")},
-              res.get("suite_with_patch", {}).get("n_stable_missing"), flush=True)
-    ensure_wt()
+        return
+    if mode == "suite":
+        remaining = list(dirs)
+        while remaining:
+            ensure_wt()
+            batch, rest = [], []
+            for d in remaining:
+                rc, _ = sh("git apply %s" % os.path.join(d, "patch.diff"))
+                (batch if rc == 0 else rest).append(d)
+            if not batch:
+                for d in rest:
+                    update(d, suite_note="patch does not apply")
+                break
+            r = suite()
+            for d in batch:
+                update(d, suite_with_patch_stable_missing=r["n_stable_missing"], suite_batch=[os.path.basename(x) for x in batch],
+                       suite_passed=r["passed"], suite_failed=r["failed"], suite_missing_names=r["stable_missing"][:10])
+            print("suite with", [os.path.basename(x) for x in batch], "->", r["passed"], "passed,", r["n_stable_missing"],
+                  "stable tests missing", r["stable_missing"][:10], flush=True)
+            remaining = rest
+        ensure_wt()
 
 
 if __name__ == "__main__":
